@@ -114,7 +114,7 @@ func runCase(c *vh.Ctx, in input) {
 }
 
 // mutated variants of a valid encoding
-func variants(c *vh.Ctx, enc []byte, n int) (out [][]byte, kinds []string) {
+func variants(c gen.R, enc []byte, n int) (out [][]byte, kinds []string) {
 	root, rest, ok := gen.ParseNode(enc, 0)
 	if !ok || len(rest) != 0 {
 		return
@@ -148,9 +148,10 @@ func variants(c *vh.Ctx, enc []byte, n int) (out [][]byte, kinds []string) {
 
 func tyJSON(t *gen.Ty) string { b, _ := json.Marshal(t); return string(b) }
 
-func genCases(c *vh.Ctx) {
+func genCases(ctx *vh.Ctx) {
+	c := gen.NewRand(ctx.Seed, "C20/case")
 	nTypes := 170
-	if c.Thorough {
+	if ctx.Thorough {
 		nTypes = 6000
 	}
 	for i := 0; i < nTypes; i++ {
@@ -164,14 +165,14 @@ func genCases(c *vh.Ctx) {
 			v := gen.RandValue(c, t, params, 12)
 			enc, err := marshal(v, params)
 			if err != nil {
-				c.Stat("marshal_rejected", 1)
+				ctx.Stat("marshal_rejected", 1)
 				continue
 			}
 			emit := func(b []byte, kind string) {
 				if len(b) > 700 {
 					return
 				}
-				runCase(c, input{Ty: t, Params: params, Hex: vh.Hex(b), Kind: kind})
+				runCase(ctx, input{Ty: t, Params: params, Hex: vh.Hex(b), Kind: kind})
 			}
 			emit(enc, "valid")
 			if c.Intn(3) == 0 {
@@ -204,10 +205,10 @@ func genCases(c *vh.Ctx) {
 		conts = append(conts, []byte(ts))
 	}
 	step := 1
-	if !c.Thorough {
+	if !ctx.Thorough {
 		step = 10 // a deterministic 1/10 sample of the product in the quick tier (seed-shifted)
 	}
-	idx := int(c.Seed % 10)
+	idx := int(ctx.Seed % 10)
 	for _, pk := range prims {
 		t := &gen.Ty{K: pk}
 		for _, tg := range tags {
@@ -238,13 +239,13 @@ func genCases(c *vh.Ctx) {
 					if tg == 0x80 {
 						params = []string{"tag:0", "tag:0,generalized", "tag:0,utf8", "tag:0,ia5", "tag:0,optional"}[idx%5]
 					}
-					runCase(c, input{Ty: t, Params: params, Hex: vh.Hex(b), Kind: "enum"})
+					runCase(ctx, input{Ty: t, Params: params, Hex: vh.Hex(b), Kind: "enum"})
 				}
 			}
 		}
 	}
-	c.Note("enumerated product: 12 primitive targets x 15 tag octets x (22 contents + 21 time strings) x 3 length forms" +
-		map[bool]string{true: " (complete)", false: " (1/10 sample, offset by seed)"}[c.Thorough])
+	ctx.Note("enumerated product: 12 primitive targets x 15 tag octets x (22 contents + 21 time strings) x 3 length forms" +
+		map[bool]string{true: " (complete)", false: " (1/10 sample, offset by seed)"}[ctx.Thorough])
 }
 
 func marshal(v reflect.Value, params string) (b []byte, err error) {
@@ -458,6 +459,7 @@ func checkCert(c *vh.Ctx, in certInput) {
 }
 
 func genCerts(c *vh.Ctx) {
+	rng := gen.NewRand(c.Seed, "C20/cert")
 	names, ders := loadSeeds()
 	c.Stat("x509.seeds", len(ders))
 	single := 0
@@ -473,7 +475,7 @@ func genCerts(c *vh.Ctx) {
 		// every node x every mutation kind
 		for _, n := range all {
 			for _, kind := range gen.MutKinds {
-				if u := gen.Mutate(c, n, kind); u != nil {
+				if u := gen.Mutate(rng, n, kind); u != nil {
 					checkCert(c, certInput{Seed: names[si], Hex: vh.Hex(root.Enc()), Kind: kind})
 					u()
 					single++
@@ -486,12 +488,12 @@ func genCerts(c *vh.Ctx) {
 			nmulti = 1500
 		}
 		for i := 0; i < nmulti; i++ {
-			k := 2 + c.Intn(3)
+			k := 2 + rng.Intn(3)
 			var undo []func()
 			var ks []string
 			for j := 0; j < k; j++ {
-				kind := gen.MutKinds[c.Intn(len(gen.MutKinds))]
-				if u := gen.Mutate(c, all[c.Intn(len(all))], kind); u != nil {
+				kind := gen.MutKinds[rng.Intn(len(gen.MutKinds))]
+				if u := gen.Mutate(rng, all[rng.Intn(len(all))], kind); u != nil {
 					undo = append(undo, u)
 					ks = append(ks, kind)
 				}
